@@ -325,7 +325,11 @@ func (tr *fnTrans) atCall(ins ssa.Instruction, args []Term) {
 	if len(tr.spec.Ats) == 0 {
 		return
 	}
-	for _, at := range tr.matchAts(ins.Pos()) {
+	callPos := ins.Pos()
+	if g, ok := ins.(*ssa.Go); ok {
+		callPos = g.Common().Pos() // the go keyword is not where the call text is indexed
+	}
+	for _, at := range tr.matchAts(callPos) {
 		at.Used = true
 		env := map[string]Term{}
 		for k, v := range tr.params {
@@ -665,6 +669,8 @@ func (tr *fnTrans) goStmt(x *ssa.Go) {
 	for _, a := range cc.Args {
 		args = append(args, tr.val(a))
 	}
+	// at-call clauses also apply to the call of a go statement
+	tr.atCall(x, args)
 	env := map[string]Term{}
 	for i, a := range args {
 		if i < len(sp.Params) {
